@@ -266,18 +266,18 @@ package io
 //@   loop 1 invariant [shape] 0 <= dec.head && dec.head <= dec.tail && dec.tail <= len(dec.buf) && (dec.reader != nil ==> len(dec.buf) > 0 && ghost.rpos[ival(dec.reader)] >= dec.tail)
 //@   loop 1 invariant [coupling] dec.reader != nil ==> forall(j, off(dec.buf) + dec.head, off(dec.buf) + dec.tail, mem(dec.buf, j) == ghost.rstream[ival(dec.reader)][ghost.rpos[ival(dec.reader)] - dec.tail - off(dec.buf) + j])
 //@   loop 1 invariant [only_digits_passed] dec.reader != nil ==> ghost.rpos[ival(dec.reader)] - dec.tail + dec.head >= lp0 &&
-//@       forall(q, lp0, ghost.rpos[ival(dec.reader)] - dec.tail + dec.head, intDigits[ghost.rstream[ival(dec.reader)][q]] != 255)
+//@       forall(q, lp0, ghost.rpos[ival(dec.reader)] - dec.tail + dec.head, isdigit(ghost.rstream[ival(dec.reader)][q]))
 //@   loop 1 invariant [memory] dec.reader == nil ==> same(dec.buf, old(dec.buf)) && dec.tail == old(dec.tail) && dec.head == old(dec.head)
 //@   loop 1 invariant [sticky] old(dec.Error) != nil ==> dec.Error != nil
 //@   loop 1 invariant [bufid] arr(dec.buf) == old(arr(dec.buf)) || isnew(arr(dec.buf))
-//@   loop 2 invariant [scan] dec.head <= p && p <= dec.tail && forall(j, off(dec.buf) + dec.head, off(dec.buf) + p, intDigits[mem(dec.buf, j)] != 255)
-//@   ensures [stream_stops_after_the_first_non_digit] dec.reader != nil && intDigits[c] != 255 ==>
+//@   loop 2 invariant [scan] dec.head <= p && p <= dec.tail && forall(j, off(dec.buf) + dec.head, off(dec.buf) + p, isdigit(mem(dec.buf, j)))
+//@   ensures [stream_stops_after_the_first_non_digit] dec.reader != nil && isdigit(c) ==>
 //@       ghost.rpos[ival(dec.reader)] - dec.tail + dec.head >= lp0 &&
-//@       forall(q, lp0, ghost.rpos[ival(dec.reader)] - dec.tail + dec.head - 1, intDigits[ghost.rstream[ival(dec.reader)][q]] != 255) &&
-//@       (dec.Error != nil || (ghost.rpos[ival(dec.reader)] - dec.tail + dec.head > lp0 && intDigits[ghost.rstream[ival(dec.reader)][ghost.rpos[ival(dec.reader)] - dec.tail + dec.head - 1]] == 255))
-//@   ensures [not_a_number_consumes_nothing] intDigits[c] == 255 ==> value == 0 && dec.head == old(dec.head) && dec.tail == old(dec.tail) && same(dec.buf, old(dec.buf)) && ghost.rpos[ival(dec.reader)] == old(ghost.rpos[ival(dec.reader)])
-//@   ensures [memory_stops_after_the_first_non_digit] dec.reader == nil && intDigits[c] != 255 ==> old(dec.head) <= dec.head &&
-//@       forall(j, off(dec.buf) + old(dec.head), off(dec.buf) + dec.head - 1, intDigits[mem(dec.buf, j)] != 255)
+//@       forall(q, lp0, ghost.rpos[ival(dec.reader)] - dec.tail + dec.head - 1, isdigit(ghost.rstream[ival(dec.reader)][q])) &&
+//@       (dec.Error != nil || (ghost.rpos[ival(dec.reader)] - dec.tail + dec.head > lp0 && !isdigit(ghost.rstream[ival(dec.reader)][ghost.rpos[ival(dec.reader)] - dec.tail + dec.head - 1])))
+//@   ensures [not_a_number_consumes_nothing] !isdigit(c) ==> value == 0 && dec.head == old(dec.head) && dec.tail == old(dec.tail) && same(dec.buf, old(dec.buf)) && ghost.rpos[ival(dec.reader)] == old(ghost.rpos[ival(dec.reader)])
+//@   ensures [memory_stops_after_the_first_non_digit] dec.reader == nil && isdigit(c) ==> old(dec.head) <= dec.head &&
+//@       forall(j, off(dec.buf) + old(dec.head), off(dec.buf) + dec.head - 1, isdigit(mem(dec.buf, j)))
 
 //@ template decthin
 //@   prop C04 C05
